@@ -51,7 +51,7 @@ fn funding_tx(d: u64) -> Transaction {
 fn services(persister: Arc<dyn Persist>) -> NodeServices {
     NodeServices {
         validator_factory: Arc::new(SimpleValidatorFactory::new()),
-        starting_time_factory: make_genesis_starting_time_factory(Network::Testnet),
+        starting_time_factory: make_genesis_starting_time_factory(Network::Regtest),
         persister,
         clock: Arc::new(ManualClock::new(Duration::from_secs(1_700_000_000))),
         trusted_oracle_pubkeys: vec![],
@@ -79,7 +79,8 @@ impl W15 {
         let persister: Arc<dyn Persist> = Arc::new(KVVPersister(MemoryKVVStore::new([7u8; 16]), JsonFormat));
         let mut seed = [0u8; 32];
         seed.copy_from_slice(&hex::decode(TEST_SEED[1]).unwrap());
-        let config = NodeConfig { network: Network::Testnet, key_derivation_style: KeyDerivationStyle::Native, use_checkpoints: false, allow_deep_reorgs: true };
+        // regtest: blocks of regtest difficulty can cross the retarget boundary at 2016 (on testnet they exceed the chain maximum)
+        let config = NodeConfig { network: Network::Regtest, key_derivation_style: KeyDerivationStyle::Native, use_checkpoints: false, allow_deep_reorgs: true };
         let node = Arc::new(Node::new(config, &seed, vec![], services(persister.clone())));
         persister.new_node(&node.get_id(), &config, &*node.get_state()).unwrap();
         persister.new_tracker(&node.get_id(), &node.get_tracker()).unwrap();
@@ -342,6 +343,8 @@ fn apply_basic(w: &mut W15, op: &str) {
     }
 }
 
+fn forgot_or_pruned_ok(_op: &str) -> bool { true }
+
 pub struct C15;
 
 impl Group for C15 {
@@ -379,6 +382,8 @@ impl Group for C15 {
             // the same swept: pruned when the sweep is 100 deep; static-remotekey channel likewise
             mk("init|new 2|setup 2|add 21|add 28|add 29|forget 2|addn 98|heartbeat|addn 1|heartbeat|addn 1|heartbeat"),
             mk("init|new 1|setup 1|add 11|add 18|forget 1|addn 100|heartbeat|add 19|addn 99|heartbeat"),
+            // an open channel whose forget was requested survives far beyond MAX_CLOSING_DEPTH (2016) blocks
+            mk("init|new 1|setup 1|add 11|forget 1|addn 2030|heartbeat|restart|heartbeat|new 1"),
             // unilateral close, swept later; double spend on another channel
             mk("init|new 1|new 2|setup 1|setup 2|add 11 22|add 14|forget 1|forget 2|addn 50|add 15 16|add 17|addn 60|heartbeat|addn 45|heartbeat"),
         ];
@@ -543,7 +548,7 @@ impl Group for C15 {
     fn model_line(&self, op: &str) -> Option<String> {
         let t: Vec<&str> = op.split_whitespace().collect();
         Some(match t.as_slice() {
-            ["init"] => "init 3 0".to_string(),
+            ["init"] => "init 3 1".to_string(),
             ["setup", d] => {
                 let d: u64 = d.parse().unwrap();
                 format!("setup {} {} {} 0 0.{};0.{}", d, d, fid(d), 10 * d + 1, 10 * d + 2)
@@ -557,6 +562,7 @@ impl Group for C15 {
         let mut dead = false;
         let mut forgot_req: BTreeSet<u64> = BTreeSet::new(); // forget acknowledged for a ready channel
         let mut forgotten_max: u64 = 0; // highest id of an existing channel that was forgotten
+        let mut gone: BTreeSet<u64> = BTreeSet::new(); // forgotten stubs and pruned channels: must never come back
         let mut interesting = false;
         for (i, op) in ops.iter().enumerate() {
             if dead { co.out.push("dead".into()); continue; }
@@ -568,6 +574,7 @@ impl Group for C15 {
             }
             let wd = w.as_mut().expect("init first");
             let ready_before = wd.ready_set();
+            let existed_before: BTreeSet<u64> = (1..=NCH + 1).filter(|d| wd.has_channel(*d)).collect();
             let res: String = match t.as_slice() {
                 ["new", d] => {
                     let d: u64 = d.parse().unwrap();
@@ -577,6 +584,10 @@ impl Group for C15 {
                     if r.is_ok() && !existed && d <= forgotten_max {
                         co.violations.push(Violation { kind: "channel-id-reuse".into(),
                             desc: format!("new_channel({}) created a channel although channel {} was forgotten before", d, forgotten_max), at: i });
+                    }
+                    if r.is_err() && !existed && wd.has_channel(d) {
+                        co.violations.push(Violation { kind: "channel-id-reuse".into(),
+                            desc: format!("new_channel({}) was refused but the channel exists afterwards", d), at: i });
                     }
                     co.tags.insert(format!("new:{}", if r.is_ok() { if existed { "existing" } else { "created" } } else { "refused" }));
                     if r.is_ok() { "ok".into() } else { "err".into() }
@@ -600,7 +611,19 @@ impl Group for C15 {
                     if deep_any { interesting = true; }
                     match catch_unwind(AssertUnwindSafe(|| wd.node.get_heartbeat())) { Ok(_) => "ok".into(), Err(e) => format!("panic {}", panic_msg(e)) }
                 }
-                ["restart"] => { wd.restart(); co.tags.insert("restart".into()); "ok".into() }
+                ["restart"] => {
+                    co.tags.insert("restart".into());
+                    match catch_unwind(AssertUnwindSafe(|| wd.restart())) {
+                        Ok(()) => "ok".into(),
+                        Err(e) => {
+                            // the persisted state cannot be restored (e.g. a channel whose listener is gone): the signer is dead
+                            co.violations.push(Violation { kind: "restart-abort".into(), desc: format!("restore_node panicked: {}", panic_msg(e)), at: i });
+                            dead = true;
+                            co.out.push("panic".into());
+                            continue;
+                        }
+                    }
+                }
                 ["add", rest @ ..] => {
                     let ids: Vec<u64> = rest.iter().map(|tk| super::c14::world::parse_token_id(tk)).collect();
                     wd.add_block(&ids)
@@ -626,6 +649,21 @@ impl Group for C15 {
                 co.out.push("panic".into());
                 continue;
             }
+            // monitor: a channel that was forgotten-and-removed or pruned never reappears (e.g. out of the store on restart)
+            if t[0] == "forget" || t[0] == "heartbeat" {
+                for d in 1..=NCH + 1 {
+                    if existed_before.contains(&d) && !wd.has_channel(d) && forgot_or_pruned_ok(t[0]) { gone.insert(d); }
+                }
+            }
+            if t[0] == "restart" {
+                for d in gone.iter() {
+                    if wd.has_channel(*d) {
+                        co.violations.push(Violation { kind: "forgotten-channel-resurrected".into(),
+                            desc: format!("channel {} had been removed (forgotten stub / pruned) and exists again after the restart", d), at: i });
+                    }
+                }
+            }
+            if t[0] == "new" { if let Ok(d) = t[1].parse::<u64>() { if wd.has_channel(d) { gone.remove(&d); } } }
             // monitor: ready channels disappear only when allowed
             let ready_after = wd.ready_set();
             for d in ready_before.difference(&ready_after) {
